@@ -100,6 +100,39 @@ def baseOf (av v : Nat) : Nat := if v = staleNaN then av else v
 /-- (st, t, value bits) -/
 abbrev Sample3 := Int × Int × Nat
 
+/-- `dod := int64(uint64(t - a.t) - a.tDelta)`. -/
+def dodOf (a : App) (t : Int) : Int := toI ((toU (t - a.t) + two64 - a.tDelta) % two64)
+
+/-- Fast path of the `default:` case: no ST data for this sample. -/
+def encFast (a : App) (t : Int) (v : Nat) : Bits × App :=
+  ((tvBits a.v a.leading a.trailing (dodOf a t) v).1,
+   { a with t := t, v := baseOf a.v v, tDelta := toU (t - a.t),
+            leading := (tvBits a.v a.leading a.trailing (dodOf a t) v).2.1,
+            trailing := (tvBits a.v a.leading a.trailing (dodOf a t) v).2.2 })
+
+/-- Active-ST path: every sample carries the change of `(prevT - st)`. -/
+def encActive (a : App) (st t : Int) (v : Nat) : Bits × App :=
+  ((tvBits a.v a.leading a.trailing (dodOf a t) v).1 ++ putVarbitInt (wrapI (wrapI (a.t - st) - a.stDiff)),
+   { a with st := st, t := t, v := baseOf a.v v, tDelta := toU (t - a.t), stDiff := wrapI (a.t - st),
+            leading := (tvBits a.v a.leading a.trailing (dodOf a t) v).2.1,
+            trailing := (tvBits a.v a.leading a.trailing (dodOf a t) v).2.2 })
+
+/-- Slow path: `firstSTChangeOn == 0`; the ST difference is written when the ST changed or the sample
+    index is 127 (`chg`). -/
+def encSlow (num : Nat) (chg : Bool) (a : App) (st t : Int) (v : Nat) : Bits × App :=
+  ((encodeJoint a.v a.leading a.trailing (dodOf a t) v).1 ++ (if chg then putVarbitInt (wrapI (a.t - st)) else []),
+   { a with st := st, t := t, v := baseOf a.v v, tDelta := toU (t - a.t),
+            stDiff := if chg then wrapI (a.t - st) else 0,
+            leading := (encodeJoint a.v a.leading a.trailing (dodOf a t) v).2.1,
+            trailing := (encodeJoint a.v a.leading a.trailing (dodOf a t) v).2.2,
+            fsco := if chg then num else a.fsco })
+
+/-- `xor2Appender.Append(st, t, v)`, the `default:` case (`num ≥ 2` samples already in the chunk). -/
+def encNext (num : Nat) (a : App) (st t : Int) (v : Nat) : Bits × App :=
+  if a.fsco = 0 ∧ st = a.st ∧ num ≠ 127 then encFast a t v
+  else if a.fsco > 0 then encActive a st t v
+  else encSlow num (decide (st ≠ a.st ∨ num = 127)) a st t v
+
 /-- `xor2Appender.Append(st, t, v)` when the chunk already holds `num` samples (`num < 65535`):
     emitted bits and new state. -/
 def encSample (num : Nat) (a : App) (st t : Int) (v : Nat) : Bits × App :=
@@ -115,28 +148,7 @@ def encSample (num : Nat) (a : App) (st t : Int) (v : Nat) : Bits × App :=
     (putUvarint td ++ (w.1 ++ (if chg then putVarbitInt sd else [])),
      { a with st := st, t := t, v := baseOf a.v v, tDelta := td, stDiff := sd,
               leading := w.2.1, trailing := w.2.2, fsco := if chg then 1 else a.fsco })
-  | n + 2 =>
-    let td := toU (t - a.t)
-    let dod := toI ((td + two64 - a.tDelta) % two64)
-    if a.fsco = 0 ∧ st = a.st ∧ n + 2 ≠ 127 then
-      -- fast path: no ST data for this sample
-      let w := tvBits a.v a.leading a.trailing dod v
-      (w.1, { a with t := t, v := baseOf a.v v, tDelta := td, leading := w.2.1, trailing := w.2.2 })
-    else if a.fsco > 0 then
-      -- active-ST path: every sample carries the change of (prevT - st)
-      let nsd := wrapI (a.t - st)
-      let w := tvBits a.v a.leading a.trailing dod v
-      (w.1 ++ putVarbitInt (wrapI (nsd - a.stDiff)),
-       { a with st := st, t := t, v := baseOf a.v v, tDelta := td, stDiff := nsd,
-                leading := w.2.1, trailing := w.2.2 })
-    else
-      -- slow path: first ST change (or the forced one at index 127)
-      let w := encodeJoint a.v a.leading a.trailing dod v
-      let chg := decide (st ≠ a.st ∨ n + 2 = 127)
-      let sd := if chg then wrapI (a.t - st) else 0
-      (w.1 ++ (if chg then putVarbitInt sd else []),
-       { a with st := st, t := t, v := baseOf a.v v, tDelta := td, stDiff := sd,
-                leading := w.2.1, trailing := w.2.2, fsco := if chg then n + 2 else a.fsco })
+  | n + 2 => encNext (n + 2) a st t v
 
 /-- The ST header byte for an appender state (`writeHeaderFirstSTKnown`, `writeHeaderFirstSTChangeOn`:
     an index above 127 is not written). -/
@@ -234,6 +246,24 @@ def decTV (d : Dec) (bits : Bits) : Option (Int × Nat × Nat × Nat × Nat × N
       | none => none
       | some (v, b, l, tr, r') => some (advT d.t td, v, b, td, l, tr, r')
 
+/-- The optional ST data behind the timestamp+value code of sample `numRead ≥ 2`: `d` is the state before
+    the sample (`prevT = d.t`), `d1` the state after its timestamp and value were read. -/
+def decST (fsco numRead : Nat) (d d1 : Dec) (r1 : Bits) : Option (Dec × Bits) :=
+  if fsco > 0 ∧ numRead ≥ fsco then
+    match readVarbitInt r1 with
+    | none => none
+    | some (sdod, r2) =>
+      let sd := if numRead = fsco then sdod else wrapI (d.stDiff + sdod)
+      some ({ d1 with stDiff := sd, st := wrapI (d.t - sd) }, r2)
+  else some (d1, r1)
+
+/-- `xor2Iterator.Next` for sample `numRead ≥ 2`. -/
+def decNext (fsco numRead : Nat) (d : Dec) (bits : Bits) : Option (Dec × Bits) :=
+  match decTV d bits with
+  | none => none
+  | some (t, v, b, td, l, tr, r1) =>
+    decST fsco numRead d { d with t := t, val := v, base := b, tDelta := td, leading := l, trailing := tr } r1
+
 /-- `xor2Iterator.Next` when `numRead` samples were read, for a chunk whose ST header says
     `(known, fsco)`: new state and remaining bits; `none` = error. -/
 def decSample (known : Bool) (fsco numRead : Nat) (d : Dec) (bits : Bits) : Option (Dec × Bits) :=
@@ -264,18 +294,7 @@ def decSample (known : Bool) (fsco numRead : Nat) (d : Dec) (bits : Bits) : Opti
           | none => none
           | some (sdod, r2) => some ({ d1 with stDiff := sdod, st := wrapI (d.t - sdod) }, r2)
         else some (d1, r1)
-  | n + 2 =>
-    match decTV d bits with
-    | none => none
-    | some (t, v, b, td, l, tr, r1) =>
-      let d1 := { d with t := t, val := v, base := b, tDelta := td, leading := l, trailing := tr }
-      if fsco > 0 ∧ n + 2 ≥ fsco then
-        match readVarbitInt r1 with
-        | none => none
-        | some (sdod, r2) =>
-          let sd := if n + 2 = fsco then sdod else wrapI (d.stDiff + sdod)
-          some ({ d1 with stDiff := sd, st := wrapI (d.t - sd) }, r2)
-      else some (d1, r1)
+  | n + 2 => decNext fsco (n + 2) d bits
 
 /-- Bits of a sample sequence appended to a chunk holding `num` samples with appender state `a`. -/
 def encodeFrom (num : Nat) (a : App) : List Sample3 → Bits
